@@ -3,6 +3,7 @@
 package redis
 
 import (
+	"runtime/debug"
 	"bytes"
 	"encoding/json"
 	"fmt"
@@ -23,7 +24,8 @@ import (
 //                 decoder followed by the real request dispatch (panics recovered and reported with the input);
 //                 every supported command name x argument shapes; length fields from {-2,-1,0,1,limit-1,
 //                 limit,limit+1,2^63-1,2^63} x truncations; nesting depth up to 8e6 and nested large arrays in
-//                 an isolated child process (a stack overflow is fatal, not recoverable)
+//                 an isolated child process (a stack overflow is fatal, not recoverable); runs of up to 4e6
+//                 repetitions of one short unit (empty line, blank, null/empty message) under a 64 MiB stack limit
 // (I) backend     every MOVED/ASK/CLUSTERDOWN error text shape through the client's reply handler with the real
 //                 upstream callbacks; every CLUSTER NODES text of <= 2 lines (+ selected 3-line texts) built from
 //                 field alphabets through the real parser and table update, under both map orders; huge slot
@@ -212,6 +214,18 @@ func c11inputs(env sched.Env) *sched.Report {
 			fail("downstream nested maximum-length arrays: "+r.Sig, fmt.Sprintf("'*1048576\\r\\n' x %d: %s", d, r.Detail), c)
 		}
 	}
+	// long runs of one short unit (empty lines, blanks, empty or null messages): stack and memory must not grow
+	// with the length of the run; isolated child with a 64 MiB stack limit
+	for _, unit := range []string{"\r\n", " \r\n", "\n", " ", "\r", "*0\r\n", "*-1\r\n", "$-1\r\n", "+\r\n", ":\r\n", "$0\r\n\r\n", "*1\r\n$0\r\n\r\n", "a\r\n"} {
+		for _, n := range []int{10, 10000, 4000000} {
+			rep.Execs++
+			c := c11case{Kind: "repeat", Text: unit, N: n}
+			r := sched.RunIsolated("C11/inputs", c, 120*time.Second, 1536)
+			if r.Sig != "" {
+				fail("downstream long run of one unit: "+r.Sig, fmt.Sprintf("%q x %d: %s", unit, n, r.Detail), c)
+			}
+		}
+	}
 	rep.Distinct = rep.Execs
 	rep.Rule = "distinct byte strings / structured inputs; every one is run through the real decoder and dispatch"
 	rep.CustomSamples = []interface{}{"*1\\r\\n$a", "$-2\\r\\n", "*1\\r\\n x 1000000", "scan 18446744073709551616"}
@@ -243,6 +257,20 @@ func c11child(in json.RawMessage) string {
 		}
 	case "slotrange":
 		parseClusterNodes(c.Text)
+	case "repeat":
+		debug.SetMaxStack(64 << 20)
+		data := strings.Repeat(c.Text, c.N) + "*1\r\n$4\r\nPING\r\n"
+		for _, buf := range []int{4096, 8192} {
+			d := newDecoder(strings.NewReader(data), buf)
+			p := c11proc()
+			for {
+				v, err := d.Decode()
+				if err != nil {
+					break
+				}
+				p.handleRequest(newRawRequest(v))
+			}
+		}
 	}
 	return ""
 }
@@ -295,7 +323,7 @@ func c11backend(env sched.Env) *sched.Report {
 	ids := []string{"a", "b"}
 	addrs := []string{"h:1", "h:1@2", "h", ":", ""}
 	masters := []string{"-", "a", "b", "z"}
-	slots := []string{"", "5", "0-5", "5-0", "x", "-", "[5->-a]", "99999", "-1", "1-2-3"}
+	slots := []string{"", "5", "0-5", "5-0", "x", "-", "[5->-a]", "99999", "-1", "1-2-3", "16383", "16384", "16380-16384"}
 	for _, id := range ids {
 		for _, ad := range addrs {
 			for _, m := range masters {
@@ -335,6 +363,22 @@ func c11backend(env sched.Env) *sched.Report {
 			for _, l3 := range short {
 				tryNodes(l1 + "\n" + l2 + "\n" + l3)
 			}
+		}
+	}
+	// the real refresh (request to a node, parse, table update) with boundary slot fields
+	stoks := []string{"0", "16383", "16384", "16385", "-1", "-0", "65536", "0-16383", "0-16384", "16383-16384", "16384-16385", "16384-16384", "-1-0", "4294967296", "9223372036854775807"}
+	var stexts []string
+	for _, a := range stoks {
+		stexts = append(stexts, "a h:1 myself,master - 0 0 1 connected "+a)
+		for _, b := range stoks {
+			stexts = append(stexts, "a h:1 myself,master - 0 0 1 connected "+a+" "+b, "a h:1 myself,master - 0 0 1 connected "+a+"\nb h:2 master - 0 0 1 connected "+b)
+		}
+	}
+	for _, text := range stexts {
+		rep.Execs++
+		c := c11case{Kind: "nodes-refresh", Text: text}
+		if s, d := c11nodesRefresh(text); s != "" {
+			fail(s, d, c)
 		}
 	}
 	for _, rng := range []string{"0-99999999999", "-5-99999999999", "0-9223372036854775807"} {
@@ -431,6 +475,27 @@ func c11nodes(text string, rev bool) (sig, detail string) {
 		for _, r := range inst.Replicas {
 			_ = r.Addr
 		}
+	}
+	return "", ""
+}
+
+// c11nodesRefresh lets the real slot refresh of a started proxy receive text as the CLUSTER NODES answer.
+func c11nodesRefresh(text string) (sig, detail string) {
+	e := sched.RunOnce(nil, sched.Options{MaxSteps: 400000}, func() {
+		cl := cluster.New(1, 0, 1)
+		cl.Nodes[0].Addr = "h:1"
+		s := vfStartStack(cl, vfSvcConfig(0, nil, 0))
+		cl.NodesTextOverride = text
+		sched.AdvanceTime(int64(slotsRefFreq) + 1)
+		sched.WaitQuiescent()
+		s.RefreshRound()
+		c := s.NewClient("c0")
+		if _, err := c.Do("PING"); err != nil {
+			sched.Fail("proxy-stopped-serving / after a CLUSTER NODES answer", err.Error())
+		}
+	})
+	for _, f := range e.Failures {
+		return f.Sig + " / CLUSTER NODES answer with boundary slot fields", fmt.Sprintf("text %q: %s", text, f.Detail)
 	}
 	return "", ""
 }
@@ -535,11 +600,11 @@ func init() {
 			if s, d := c11downstream(c11proc(), c.In); s != "" {
 				return []sched.Failure{{Sig: s, Detail: d}}
 			}
-		case "nest", "nestbig", "slotrange":
+		case "nest", "nestbig", "slotrange", "repeat":
 			r := sched.RunIsolated("C11/inputs", c, 120*time.Second, 1536)
 			fmt.Println(r.Sig, r.Detail)
 			if r.Sig != "" {
-				pre := map[string]string{"nest": "downstream nesting depth: ", "nestbig": "downstream nested maximum-length arrays: ", "slotrange": "cluster nodes slot range: "}[c.Kind]
+				pre := map[string]string{"nest": "downstream nesting depth: ", "nestbig": "downstream nested maximum-length arrays: ", "slotrange": "cluster nodes slot range: ", "repeat": "downstream long run of one unit: "}[c.Kind]
 				return []sched.Failure{{Sig: pre + r.Sig, Detail: r.Detail}}
 			}
 		}
@@ -554,6 +619,8 @@ func init() {
 			s, d = c11errText(c.Text)
 		case "nodes":
 			s, d = c11nodes(c.Text, c.Rev)
+		case "nodes-refresh":
+			s, d = c11nodesRefresh(c.Text)
 		case "scan":
 			vs, _, _ := resp.DecodeAll(c.In)
 			if len(vs) == 1 {
